@@ -151,5 +151,13 @@ def _oracle1(c, o):
              if O.winnable(m, [sum(1 for x in cmb if x == i) - (i == q) for i in range(n)])]
         if S: exp = [k, sorted(S)]; break
     if o["persink"] != exp: why.append("per-sink result %s, truth %s" % (o["persink"], exp))
+    if "ps_single" in o:      # the per-sink object used directly: a strategy wins against q iff (placement - q) is winnable
+        alt = [(c["v"] + j) % n for j in range(min(2, n))]
+        wP = O.winnable(m, [P[i] - (i == q) for i in range(n)]); wA = O.winnable(m, [sum(1 for x in alt if x == i) - (i == q) for i in range(n)])
+        if o["ps_single"] != wP or o["ps_single_again"] != wP: why.append("test_strategy(P=%s, q=%d) = %s / %s, winnability of P - q is %s" % (P, q, o["ps_single"], o["ps_single_again"], wP))
+        if o["ps_batch"] != [wA, wP, wP, wA]: why.append("test_strategy_batch = %s, by definition %s" % (o["ps_batch"], [wA, wP, wP, wA]))
+        if o["ps_analysis"] != exp: why.append("batch_gonality_analysis = %s, truth %s" % (o["ps_analysis"], exp))
+        kk = o["verify_bounds"][0]; gt = O.gonality(m, n)
+        if o["verify_bounds"][1:] != [gt <= kk, kk <= 1 or gt >= kk]: why.append("verify_gonality_bounds(%d) = %s on a graph of gonality %d" % (kk, o["verify_bounds"][1:], gt))
     return {"violates": bool(why), "why": why}
 def nontrivial(cases): return len({str(c["G"]["edges"]) for c in cases if c["G"]["n"] >= 3})
